@@ -248,6 +248,26 @@ check("C18", "model_checking",
       "explicit-state enumeration of attribute token streams against a flag->option model, with conformance runs of the real macro",
       "DESIGN.md 4 C18, 5 (hook H2)")
 
+# alphabets added after the ninth round of seeded changes (appended to the level text of the check)
+ROUND9 = {
+    "C01": "One schema field under different response keys in different selection sets of one operation body is part of the item alphabets.",
+    "C04": "A @oneOf input with a single member is one of the named types.",
+    "C05": "Documents in which a fragment has the same name as one of the operations, in every order.",
+    "C06": "A fragment of the document spread once more where its type condition can never apply (validity is per spread).",
+    "C07": "Deprecation reasons whose whitespace matters (runs of blanks, line breaks, a tab, blanks at both ends) and an empty reason.",
+    "C08": "The controlled scheduler is fair (after 64 consecutive points of one thread the baton goes to another, logged as a yield, deterministic) and has a horizon; the search of a thread program ends at its first counterexample.",
+    "C09": "At every enum leaf every string that differs from a schema value only by letter case, or is its Rust-style spelling.",
+    "C11": "Acronym-style names (userID, iOSVersion, isHTML5, HTTPServer).",
+    "C12": "Multi-operation documents in which an operation with a non-recursive input precedes the one with the recursive input.",
+    "C13": "A self-recursive input object as ninth kind of named type (its outer Box is ignored).",
+    "C14": "Reasons with significant whitespace and an empty reason.",
+    "C16": "Deprecated ID fields under allow / warn / deny; decoy fields named id / ID that are not of type ID.",
+    "C17": "Variable default literals (eight shapes, complete or not) on every cyclic input type.",
+    "C18": "Every history of up to 3 (thorough 4) settings of CARGO_MANIFEST_DIR in one process.",
+    "C19": "Query or schema path given as a symbolic link to a differently named file in another directory.",
+    "C20": "Every status class once more with a body that is a valid schema (3xx without Location, 304, unusual 4xx / 5xx, 202 / 203 / 299).",
+}
+
 NOT_APPLICABLE = []
 
 
@@ -262,7 +282,7 @@ def main():
             "evidence_file": "evidence/%s.json" % pid,
             "replay_cmd_template": "./vf replay {path}",
             "engine": "vf",
-            "level_claimed": {"category": c["category"], "text": c["text"], "design_ref": c["design"]},
+            "level_claimed": {"category": c["category"], "text": c["text"] + (" Added after round 9: " + ROUND9[pid] if pid in ROUND9 else ""), "design_ref": c["design"]},
             "level_note": c["note"],
             "technique": c["technique"],
         })
